@@ -45,6 +45,7 @@ class C02(RS.StepProp):
         strs = [('{[#V].[#A][#B]}.{#A=[$]CC,#B=[$]OC}', True),
                 ('{[#A][#B]}.{#A=[$]CC[$],#B=[$]OC}', True),
                 ('{[#A][#B][#V]}.{#A=[$]CC[$],#B=[$]OC}', True),
+                ('{[#A].([#V])[#B].[#W]}.{#A=[$]CC[$],#B=[$]OC}', True),
                 ('{[#A]|3}.{#A=[$]CC[$]}', True),
                 ('{[#A]1[#A][#A]1}.{#A=[$]cc[$]}', True),
                 ('{[#A][#B]}.{#A=[$]c1ccccc1,#B=[$]C1=CC=CC=C1}', True),
@@ -57,6 +58,8 @@ class C02(RS.StepProp):
         for s, laa in strs:
             for lv in range(s.count('.{')):
                 out.append({'kind': 'step', 's': s, 'laa': laa, 'legacy': True, 'level': lv})
+        out.append({'kind': 'step', 's': strs[0][0], 'laa': True, 'legacy': True, 'level': 0, 'rekey': True})
+        out.append({'kind': 'step', 's': strs[8][0], 'laa': True, 'legacy': True, 'level': 0, 'rekey': True})
         return out
 
     def generate(self, ctx, n):
@@ -74,8 +77,12 @@ class C02(RS.StepProp):
                 base = RS.add_virtual_tail(rng, base)
             s = RS.join_blocks(base, blocks)
             legacy = rng.random() < 0.6
+            rekey = rng.random() < 0.15      # from_graph with non-canonical coarse keys (3k+2, reversed insertion)
             for lv in range(levels):
-                out.append({'kind': 'step', 's': s, 'laa': laa, 'legacy': legacy, 'level': lv})
+                c = {'kind': 'step', 's': s, 'laa': laa, 'legacy': legacy, 'level': lv}
+                if rekey:
+                    c['rekey'] = True
+                out.append(c)
         for _ in range(n_nx):
             out.append(NX.rand_case(rng))
         return out
@@ -87,9 +94,18 @@ class C02(RS.StepProp):
             impl['_k'] = self.put_term([], 'C02Check.KNx %s' % NX.coq_case(case, impl))
             return impl
         from cgsmiles.resolve import MoleculeResolver
-        key = (case['s'], case['laa'], case['legacy'])
-        got = self.records_for(key, lambda: MoleculeResolver.from_string(case['s'], last_all_atom=case['laa'],
-                                                                         legacy=case['legacy']))
+        key = (case['s'], case['laa'], case['legacy'], bool(case.get('rekey')))
+
+        def make():
+            if not case.get('rekey'):
+                return MoleculeResolver.from_string(case['s'], last_all_atom=case['laa'], legacy=case['legacy'])
+            import re
+            from cgsmiles.read_cgsmiles import read_cgsmiles
+            elements = re.findall(r"\{[^\}]+\}", case['s'])
+            base = read_cgsmiles(elements[0])
+            G = nx.relabel_nodes(base, {k: 3 * k + 2 for k in base.nodes}, copy=True)
+            return MoleculeResolver.from_graph(''.join(elements[1:]), G, last_all_atom=case['laa'], legacy=case['legacy'])
+        got = self.records_for(key, make)
         if 'ctor_exc' in got or case['level'] >= len(got['recs']) or 'skip' in got['recs'][case['level']]:
             why = got.get('ctor_exc') or ('level not reached' if case['level'] >= len(got.get('recs', [])) else
                                           got['recs'][case['level']]['skip'])
@@ -118,7 +134,7 @@ class C02(RS.StepProp):
             return 'skipped:' + str(impl['skip'])[:30]
         if impl.get('exc'):
             return 'raised:%s@%s' % (impl['exc'], RS.STAGES.get(impl['stage']))
-        return '%s:level%d%s' % ('all-atom' if impl['aa'] else 'coarse', case['level'],
+        return '%s:level%d%s%s' % ('all-atom' if impl['aa'] else 'coarse', case['level'], ':rekeyed' if case.get('rekey') else '',
                                  ':virtual-before-real' if impl.get('class') else '')
 
 
